@@ -17,7 +17,17 @@ func MakeVirtualHostBucketAddressingMiddleware(baseEndpoint string, next http.Ha
 		if hostname != baseEndpoint && strings.HasSuffix(hostname, endpointSuffix) {
 			bucket := strings.TrimSuffix(hostname, endpointSuffix)
 			if bucket != "" {
-				r.URL.Path = strings.TrimSuffix("/"+bucket+r.URL.Path, "/")
+				// Prefix the bucket without touching the key: a trailing slash is
+				// part of the key, and the escaped form has to be rewritten too or
+				// the router would re-derive it from the decoded path.
+				if r.URL.Path == "" || r.URL.Path == "/" {
+					r.URL.Path, r.URL.RawPath = "/"+bucket, ""
+				} else {
+					r.URL.Path = "/" + bucket + r.URL.Path
+					if r.URL.RawPath != "" {
+						r.URL.RawPath = "/" + bucket + r.URL.RawPath
+					}
+				}
 			}
 		}
 		next.ServeHTTP(w, r)
